@@ -736,16 +736,26 @@ func runC06(w *World, r *Report) {
 			}
 		}
 		r.check(okRoles, "balance-shape", "CalculateBalance/pourFunds-roles", w.Pos(fn.Pos()), "tip and ancestors are poured for the queried address into the same in/out pair", fmt.Sprintf("%d calls, in=%s out=%s", len(pcs), in, out))
-		// checkpoint + in - out
+		// checkpoint + in - out (the netting may sit in a helper that CalculateBalance ends with: it is analysed where the
+		// checkpoint is read, with the helper's parameters named as the arguments passed)
 		var ck ssa.Value
-		for _, c := range f.calls(cn("accountant", "*AccountingBook", "readAddressFundsFromStorage")) {
-			_, a := callArgs(c)
-			if pathOf(a[0]) == addr {
-				ck = resultAt(c, 0)
+		host := fn
+		var hres resolver = idRes
+		var hostCall ssa.CallInstruction
+		for _, d := range deepCalls(fn, byName(cn("accountant", "*AccountingBook", "readAddressFundsFromStorage")), 1) {
+			_, a := callArgs(d.c)
+			if d.path(a[0]) == addr {
+				ck = resultAt(d.c, 0)
+				host = d.c.Parent()
+				hres = d.res()
+				if len(d.chain) > 0 {
+					hostCall = d.chain[0]
+				}
 			}
 		}
 		ckPath := ""
 		if ck != nil {
+			ckPath = pathOf(ck)
 			for _, ref := range *ck.Referrers() {
 				if st, ok := ref.(*ssa.Store); ok {
 					ckPath = pathOf(st.Addr)
@@ -753,21 +763,21 @@ func runC06(w *World, r *Report) {
 			}
 		}
 		var supE, drE []Edge
-		for _, c := range f.calls(nSupply) {
+		for _, c := range callsToDeep(host, nSupply) {
 			recv, a := callArgs(c)
-			if pathOf(recv) == ckPath && pathOf(a[0]) == in {
+			if pathOf(recv) == ckPath && hres(a[0]) == in {
 				supE = append(supE, passErrNil(c)...)
 			}
 		}
-		for _, c := range f.calls(nDrain) {
+		for _, c := range callsToDeep(host, nDrain) {
 			recv, a := callArgs(c)
-			if pathOf(recv) == ckPath && pathOf(a[0]) == out {
+			if pathOf(recv) == ckPath && hres(a[0]) == out {
 				drE = append(drE, passErrNil(c)...)
 			}
 		}
 		okSum := ck != nil && ckPath != ""
 		nSucc := 0
-		for _, ret := range returnsOf(fn) {
+		for _, ret := range returnsOf(host) {
 			if !successReturn(ret) {
 				continue
 			}
@@ -777,8 +787,15 @@ func runC06(w *World, r *Report) {
 			}
 			// result = NewBalance(addr, checkpoint variable)
 			nb, isCall := strip(ret.Results[0]).(*ssa.Call)
-			if !isCall || !strings.HasSuffix(calleeName(nb), ".NewBalance") || pathOf(nb.Call.Args[0]) != addr || pathOf(nb.Call.Args[1]) != ckPath {
+			if !isCall || !strings.HasSuffix(calleeName(nb), ".NewBalance") || hres(nb.Call.Args[0]) != addr || pathOf(nb.Call.Args[1]) != ckPath {
 				okSum = false
+			}
+		}
+		if hostCall != nil { // CalculateBalance reports what the netting helper reports
+			for _, ret := range returnsOf(fn) {
+				if successReturn(ret) && !sameVal(ret.Results[0], resultAt(hostCall, 0)) {
+					okSum = false
+				}
 			}
 		}
 		r.check(okSum && nSucc > 0, "balance-shape", "CalculateBalance/checkpoint+in-out", w.Pos(fn.Pos()), "result = checkpoint(address) supplied with in and drained by out; a failing supply or drain is an error, never a number",
@@ -947,7 +964,25 @@ func runC07(w *World, r *Report) {
 					}
 				}
 			}
-			r.check(used, "no-dropped-drain-error", strings.TrimPrefix(shortFn(fn2), "(*accountant.")+"/"+shortCallee(c), lineOf(w, c), "error result of "+shortCallee(c)+" is consumed", "error result discarded")
+			// a helper that has one caller is reported under that caller: moving the call into a helper does not make it
+			// a different construct
+			owner := ownerFn(fn2)
+			for i := 0; i < 2; i++ {
+				if owner.Object() == nil || owner.Object().Exported() || inReference(owner) {
+					break
+				}
+				callers := map[*ssa.Function]bool{}
+				for _, cs := range staticCallers(w, owner) {
+					callers[ownerFn(cs.Parent())] = true
+				}
+				if len(callers) != 1 {
+					break
+				}
+				for cf := range callers {
+					owner = cf
+				}
+			}
+			r.check(used, "no-dropped-drain-error", strings.TrimPrefix(shortFn(owner), "(*accountant.")+"/"+shortCallee(c), lineOf(w, c), "error result of "+shortCallee(c)+" is consumed", "error result discarded")
 		}
 	}
 }
